@@ -1,7 +1,8 @@
 (* Proofs/ProtoWireP.v — the protobuf wire form of Spice, Transaction and Vertex decodes back to the same message,
    for all field contents. *)
 From Coq Require Import List Arith NArith ZArith Lia Bool ZifyN ZifyNat ZifyBool.
-From Verif Require Import WalletFile Msg Codec Msgpack ProtoWire.
+From Verif Require Import WalletFile Msg Codec Msgpack.
+From Verif Require Import ProtoWire.
 Import ListNotations.
 Local Open Scope N_scope.
 
@@ -35,7 +36,7 @@ Proof. unfold enc_varint. cbn [enc_varint_f]. destruct (n <? 128); eauto. Qed.
 
 (* ---------------------------------------------------------------- the record grammar *)
 Definition wf_field (f : wfield) : Prop :=
-  1 <= fst f <= max_field_number /\ match snd f with WInt v => v < N64 | WBytes b => nlen b < N64 end.
+  1 <= fst f <= max_field_number /\ match snd f with WInt v => v < N64 | WBytes b => nlen b < N64 | WSkip => False end.
 
 Lemma firstn_nlen (b rest : bytes) : firstn (N.to_nat (nlen b)) (b ++ rest) = b.
 Proof.
@@ -53,7 +54,7 @@ Lemma parse_field fuel f rest : wf_field f ->
   parse (S fuel) (enc_field f ++ rest) = option_map (cons f) (parse fuel rest).
 Proof.
   intros [[Hk1 Hk2] Hv]. destruct f as [k w]. cbn [fst snd] in *. unfold max_field_number in *.
-  destruct w as [v|b]; unfold enc_field; cbn [fst snd].
+  destruct w as [v|b|]; [| |contradiction]; unfold enc_field; cbn [fst snd].
   - destruct (enc_varint_cons (k * 8)) as [b0 [r0 E]].
     rewrite parse_S_nonempty by (rewrite E; cbn [app]; discriminate).
     unfold parse_step. rewrite <- !app_assoc.
@@ -85,29 +86,31 @@ Proof.
     rewrite parse_field by exact H1. rewrite IH; [reflexivity| cbn [List.length] in Hf; lia | exact H2].
 Qed.
 
-Lemma enc_field_length f : (1 <= List.length (enc_field f))%nat.
+Lemma enc_field_length f : wf_field f -> (1 <= List.length (enc_field f))%nat.
 Proof.
-  destruct f as [k [v|b]]; unfold enc_field; cbn [fst snd].
+  intros [_ Hw]. destruct f as [k [v|b|]]; unfold enc_field; cbn [fst snd] in *; [| |contradiction].
   - destruct (enc_varint_cons (k * 8)) as [b0 [r0 E]]. rewrite E. cbn [app List.length]. lia.
   - destruct (enc_varint_cons (k * 8 + 2)) as [b0 [r0 E]]. rewrite E. cbn [app List.length]. lia.
 Qed.
-Lemma enc_fields_length fs : (List.length fs <= List.length (enc_fields fs))%nat.
+Lemma enc_fields_length fs : Forall wf_field fs -> (List.length fs <= List.length (enc_fields fs))%nat.
 Proof.
-  induction fs as [|f fs IH]; [cbn; lia|].
+  induction fs as [|f fs IH]; intros H; [cbn; lia|]. inversion H as [|? ? H1 H2]; subst.
   unfold enc_fields. cbn [flat_map]. fold (enc_fields fs). rewrite app_length. cbn [List.length].
-  pose proof (enc_field_length f). lia.
+  pose proof (enc_field_length f H1). specialize (IH H2). lia.
 Qed.
 
 Lemma parse_all_fields fs : Forall wf_field fs -> parse_all (enc_fields fs) = Some fs.
-Proof. intros H. unfold parse_all. apply parse_fields; [pose proof (enc_fields_length fs); lia | exact H]. Qed.
+Proof. intros H. unfold parse_all. apply parse_fields; [pose proof (enc_fields_length fs H); lia | exact H]. Qed.
 
 (* ---------------------------------------------------------------- look-ups through the presence rules *)
 Lemma geti_app k a b acc : geti k (a ++ b) acc = geti k b (geti k a acc).
 Proof. revert acc; induction a as [|[n w] a IH]; intros acc; cbn [app geti]; [reflexivity|apply IH]. Qed.
 Lemma getb_app k a b acc : getb k (a ++ b) acc = getb k b (getb k a acc).
 Proof. revert acc; induction a as [|[n w] a IH]; intros acc; cbn [app getb]; [reflexivity|apply IH]. Qed.
-Lemma getm_app k a b acc : getm k (a ++ b) acc = getm k b (getm k a acc).
-Proof. revert acc; induction a as [|[n w] a IH]; intros acc; cbn [app getm]; [reflexivity|apply IH]. Qed.
+Lemma getm_app k a b : getm k (a ++ b) = getm k a ++ getm k b.
+Proof. induction a as [|[n w] a IH]; cbn [app getm]; [reflexivity|]. destruct (n =? k); [destruct w|]; cbn [app]; rewrite IH; reflexivity. Qed.
+Lemma strs_ok_app strs a b : strs_ok strs (a ++ b) = strs_ok strs a && strs_ok strs b.
+Proof. unfold strs_ok. apply forallb_app. Qed.
 
 Lemma geti_ifield k k' v acc : geti k (ifield k' v) acc = if k' =? k then (if v =? 0 then acc else v) else acc.
 Proof. unfold ifield. destruct (v =? 0); cbn [geti]; destruct (k' =? k); reflexivity. Qed.
@@ -121,12 +124,18 @@ Lemma getb_bfield k k' b acc : getb k (bfield k' b) acc = if k' =? k then (match
 Proof. unfold bfield. destruct b; cbn [getb]; destruct (k' =? k); reflexivity. Qed.
 Lemma getb_mfield k k' o acc : getb k (mfield k' o) acc = if k' =? k then (match o with Some b => b | None => acc end) else acc.
 Proof. unfold mfield. destruct o; cbn [getb]; destruct (k' =? k); reflexivity. Qed.
-Lemma getm_ifield k k' v acc : getm k (ifield k' v) acc = acc.
+Lemma getm_ifield k k' v : getm k (ifield k' v) = [].
 Proof. unfold ifield. destruct (v =? 0); cbn [getm]; [reflexivity|destruct (k' =? k); reflexivity]. Qed.
-Lemma getm_bfield k k' b acc : getm k (bfield k' b) acc = if k' =? k then (match b with [] => acc | _ :: _ => merge acc b end) else acc.
+Lemma getm_bfield k k' b : getm k (bfield k' b) = if k' =? k then (match b with [] => [] | _ :: _ => [b] end) else [].
 Proof. unfold bfield. destruct b; cbn [getm]; destruct (k' =? k); reflexivity. Qed.
-Lemma getm_mfield k k' o acc : getm k (mfield k' o) acc = if k' =? k then (match o with Some b => merge acc b | None => acc end) else acc.
+Lemma getm_mfield k k' o : getm k (mfield k' o) = if k' =? k then (match o with Some b => [b] | None => [] end) else [].
 Proof. unfold mfield. destruct o; cbn [getm]; destruct (k' =? k); reflexivity. Qed.
+Lemma strs_ifield strs k v : strs_ok strs (ifield k v) = true.
+Proof. unfold ifield, strs_ok. destruct (v =? 0); reflexivity. Qed.
+Lemma strs_bfield strs k b : strs_ok strs (bfield k b) = if mem k strs then utf8_valid b else true.
+Proof. unfold bfield, strs_ok. destruct b; cbn [forallb snd fst]; [destruct (mem k strs); reflexivity|]. rewrite andb_true_r. reflexivity. Qed.
+Lemma strs_mfield strs k o : strs_ok strs (mfield k o) = match o with Some b => if mem k strs then utf8_valid b else true | None => true end.
+Proof. unfold mfield, strs_ok. destruct o; cbn [forallb snd fst]; [rewrite andb_true_r|]; reflexivity. Qed.
 
 Lemma zero_or v : (if v =? 0 then 0 else v) = v.
 Proof. destruct (N.eqb_spec v 0); congruence. Qed.
@@ -134,9 +143,10 @@ Lemma nil_or (b : bytes) : match b with [] => [] | _ :: _ => b end = b.
 Proof. destruct b; reflexivity. Qed.
 
 Ltac gets :=
-  rewrite ?geti_app, ?getb_app, ?getm_app;
-  rewrite ?geti_ifield, ?geti_bfield, ?geti_mfield, ?getb_ifield, ?getb_bfield, ?getb_mfield, ?getm_ifield, ?getm_bfield, ?getm_mfield;
-  cbn [N.eqb Pos.eqb]; rewrite ?zero_or, ?nil_or.
+  rewrite ?geti_app, ?getb_app, ?getm_app, ?strs_ok_app;
+  rewrite ?geti_ifield, ?geti_bfield, ?geti_mfield, ?getb_ifield, ?getb_bfield, ?getb_mfield, ?getm_ifield, ?getm_bfield, ?getm_mfield,
+    ?strs_ifield, ?strs_bfield, ?strs_mfield;
+  cbn [N.eqb Pos.eqb mem existsb trx_strings vtx_strings orb app andb]; rewrite ?zero_or, ?nil_or.
 
 (* ---------------------------------------------------------------- well-formed messages have well-formed records *)
 Lemma wf_ifield k v : 1 <= k <= max_field_number -> v < N64 -> Forall wf_field (ifield k v).
@@ -168,33 +178,58 @@ Proof.
 Qed.
 
 (* ---------------------------------------------------------------- Transaction *)
-Lemma ptrx_roundtrip t : wf_ptrx t -> dec_ptrx (enc_ptrx t) = Some t.
+Lemma dec_sub_one {A} (dec : bytes -> option A) b a : dec b = Some a -> dec_sub dec [b] = Some (Some a).
+Proof. intros H. unfold dec_sub. cbn [forallb concat]. rewrite app_nil_r, H. reflexivity. Qed.
+
+Lemma ptrx_roundtrip t : wf_ptrx t -> strings_valid_ptrx t = true -> dec_ptrx (enc_ptrx t) = Some t.
 Proof.
-  intros (H1 & H2 & H3 & H4 & H5 & H6 & H7 & H8 & H9). unfold dec_ptrx, enc_ptrx. rewrite parse_all_fields.
-  - unfold trx_wire. gets. destruct t as [a b c d e f g h sp]; cbn [pt_spice pt_subject pt_data pt_hash pt_created pt_receiver pt_issuer pt_rsig pt_isig option_map] in *.
-    destruct sp as [s|]; cbn [option_map merge dec_sub].
-    + rewrite pspice_roundtrip by exact H9. reflexivity.
+  intros (H1 & H2 & H3 & H4 & H5 & H6 & H7 & H8 & H9) V. unfold dec_ptrx, enc_ptrx. rewrite parse_all_fields.
+  - unfold trx_wire. destruct t as [a b c d e f g h sp]; cbn [pt_spice pt_subject pt_data pt_hash pt_created pt_receiver pt_issuer pt_rsig pt_isig option_map] in *.
+    unfold strings_valid_ptrx in V; cbn [pt_subject pt_receiver pt_issuer] in V.
+    apply andb_true_iff in V. destruct V as [V V3]. apply andb_true_iff in V. destruct V as [V1 V2].
+    gets. rewrite V1, V2, V3. cbn [andb].
+    destruct sp as [s|]; cbn [option_map].
+    + rewrite ?app_nil_r. rewrite (dec_sub_one dec_pspice _ s) by (apply pspice_roundtrip; exact H9). reflexivity.
     + reflexivity.
   - unfold trx_wire. repeat (apply Forall_app; split); try (apply wf_bfield; [fnum|assumption]); try (apply wf_ifield; [fnum|assumption]).
     apply wf_mfield; [fnum|]. destruct (pt_spice t) as [s|]; cbn [option_map]; [apply enc_pspice_short; exact H9|exact I].
 Qed.
 
 (* ---------------------------------------------------------------- Vertex *)
-Theorem pvtx_roundtrip v : wf_pvtx v -> dec_pvtx (enc_pvtx v) = Some v.
+Theorem pvtx_roundtrip v : wf_pvtx v -> strings_valid_pvtx v = true -> dec_pvtx (enc_pvtx v) = Some v.
 Proof.
-  intros (H1 & H2 & H3 & H4 & H5 & H6 & H7 & H8). unfold dec_pvtx, enc_pvtx. rewrite parse_all_fields.
-  - unfold vtx_wire. gets. destruct v as [a b c tr e f g h]; cbn [pv_signer pv_created pv_sig pv_trx pv_hash pv_left pv_right pv_weight option_map] in *.
-    destruct tr as [t|]; cbn [option_map merge dec_sub].
-    + rewrite ptrx_roundtrip by (apply H4). reflexivity.
+  intros (H1 & H2 & H3 & H4 & H5 & H6 & H7 & H8) V. unfold dec_pvtx, enc_pvtx. rewrite parse_all_fields.
+  - unfold vtx_wire. destruct v as [a b c tr e f g h]; cbn [pv_signer pv_created pv_sig pv_trx pv_hash pv_left pv_right pv_weight option_map] in *.
+    unfold strings_valid_pvtx in V; cbn [pv_signer pv_trx] in V. apply andb_true_iff in V. destruct V as [V1 V2].
+    gets. rewrite V1. cbn [andb].
+    destruct tr as [t|]; cbn [option_map].
+    + cbn [app]. rewrite (dec_sub_one dec_ptrx _ t) by (apply ptrx_roundtrip; [apply H4|exact V2]). reflexivity.
     + reflexivity.
   - unfold vtx_wire. repeat (apply Forall_app; split); try (apply wf_bfield; [fnum|assumption]); try (apply wf_ifield; [fnum|assumption]).
     apply wf_mfield; [fnum|]. destruct (pv_trx v) as [t|]; cbn [option_map]; [apply H4|exact I].
 Qed.
 
-(* two different wire structs never share an encoding *)
-Corollary pvtx_encoding_injective v w : wf_pvtx v -> wf_pvtx w -> enc_pvtx v = enc_pvtx w -> v = w.
+(* what proto.Marshal hands out, proto.Unmarshal reads back; and Marshal refuses exactly the messages with a string field that is not UTF-8 *)
+Theorem marshal_unmarshal v b : wf_pvtx v -> marshal_pvtx v = Some b -> dec_pvtx b = Some v.
 Proof.
-  intros Hv Hw E. pose proof (pvtx_roundtrip v Hv) as A. rewrite E, (pvtx_roundtrip w Hw) in A. congruence.
+  intros W M. unfold marshal_pvtx in M. destruct (strings_valid_pvtx v) eqn:V; [|discriminate]. injection M as <-. apply pvtx_roundtrip; assumption.
+Qed.
+Theorem marshal_refuses_non_utf8 v : strings_valid_pvtx v = false <-> marshal_pvtx v = None.
+Proof. unfold marshal_pvtx. destruct (strings_valid_pvtx v); split; congruence. Qed.
+(* ... and so does Unmarshal: bytes that carry such a string are not read as a message *)
+Theorem unmarshal_refuses_non_utf8 v : wf_pvtx v -> utf8_valid (pv_signer v) = false -> dec_pvtx (enc_pvtx v) = None.
+Proof.
+  intros (H1 & H2 & H3 & H4 & H5 & H6 & H7 & H8) V. unfold dec_pvtx, enc_pvtx. rewrite parse_all_fields.
+  - unfold vtx_wire. gets. rewrite V. reflexivity.
+  - unfold vtx_wire. repeat (apply Forall_app; split); try (apply wf_bfield; [fnum|assumption]); try (apply wf_ifield; [fnum|assumption]).
+    apply wf_mfield; [fnum|]. destruct (pv_trx v) as [t|]; cbn [option_map]; [apply H4|exact I].
+Qed.
+
+(* two different wire structs never share an encoding *)
+Corollary pvtx_encoding_injective v w : wf_pvtx v -> wf_pvtx w -> strings_valid_pvtx v = true -> strings_valid_pvtx w = true ->
+  enc_pvtx v = enc_pvtx w -> v = w.
+Proof.
+  intros Hv Hw Sv Sw E. pose proof (pvtx_roundtrip v Hv Sv) as A. rewrite E, (pvtx_roundtrip w Hw Sw) in A. congruence.
 Qed.
 
 (* decoding does not depend on the order of the records: any permutation of the records of a message that keeps
@@ -243,7 +278,7 @@ Proof.
     destruct (m <? 128); cbn [List.length]; [lia|]. specialize (IH (m / 128)). lia. }
   specialize (V 10%nat n). lia.
 Qed.
-Definition payload (f : wfield) : N := match snd f with WInt _ => 0 | WBytes b => nlen b end.
+Definition payload (f : wfield) : N := match snd f with WBytes b => nlen b | _ => 0 end.
 Fixpoint wsize (fs : list wfield) : N := match fs with [] => 0 | f :: r => 20 + payload f + wsize r end.
 Lemma nlen_app (a b : bytes) : nlen (a ++ b) = nlen a + nlen b.
 Proof. unfold nlen. rewrite app_length. lia. Qed.
@@ -251,9 +286,10 @@ Lemma enc_fields_size fs : nlen (enc_fields fs) <= wsize fs.
 Proof.
   induction fs as [|[k w] fs IH]; [cbn; lia|].
   unfold enc_fields. cbn [flat_map wsize]. fold (enc_fields fs). rewrite nlen_app. unfold enc_field, payload; cbn [fst snd].
-  destruct w as [v|b]; rewrite ?nlen_app.
+  destruct w as [v|b|]; rewrite ?nlen_app.
   - pose proof (varint_len (k * 8)). pose proof (varint_len v). lia.
   - pose proof (varint_len (k * 8 + 2)). pose proof (varint_len (nlen b)). lia.
+  - replace (nlen []) with 0 by reflexivity. lia.
 Qed.
 Lemma wsize_app a b : wsize (a ++ b) = wsize a + wsize b.
 Proof. induction a as [|f a IH]; cbn [app wsize]; lia. Qed.
@@ -302,5 +338,52 @@ Qed.
 
 (* every vertex a node can hold crosses the wire unchanged: the bytes proto.Marshal writes for its wire struct decode
    back to exactly that struct *)
-Theorem vertex_wire_roundtrip v : wf_vtx v -> dec_pvtx (enc_pvtx (to_pvtx v)) = Some (to_pvtx v).
-Proof. intros H. apply pvtx_roundtrip, to_pvtx_wf, H. Qed.
+Theorem vertex_wire_roundtrip v : wf_vtx v -> strings_valid_pvtx (to_pvtx v) = true -> dec_pvtx (enc_pvtx (to_pvtx v)) = Some (to_pvtx v).
+Proof. intros H V. apply pvtx_roundtrip; [apply to_pvtx_wf, H|exact V]. Qed.
+
+(* ---------------------------------------------------------------- the gossip envelopes *)
+Lemma pgos_roundtrip g : wf_pgos g -> dec_pgos (enc_pgos g) = Some g.
+Proof.
+  intros (H1 & H2 & H3 & U & _). unfold dec_pgos, enc_pgos. rewrite parse_all_fields.
+  - unfold gos_wire. gets. cbn [gos_strings mem existsb N.eqb Pos.eqb orb]. rewrite U. destruct g; reflexivity.
+  - unfold gos_wire. repeat (apply Forall_app; split); apply wf_bfield; try assumption; fnum.
+Qed.
+Lemma getm_rfield_same k l : getm k (rfield k l) = l.
+Proof. induction l as [|b l IH]; cbn [rfield map getm]; [reflexivity|]. rewrite N.eqb_refl. fold (rfield k l). rewrite IH. reflexivity. Qed.
+Lemma getm_rfield_other k k' l : k' <> k -> getm k (rfield k' l) = [].
+Proof. intros D. induction l as [|b l IH]; cbn [rfield map getm]; [reflexivity|]. destruct (N.eqb_spec k' k); [contradiction|exact IH]. Qed.
+Lemma dec_all_map (gs : list pgos) : Forall wf_pgos gs -> dec_all dec_pgos (map enc_pgos gs) = Some gs.
+Proof.
+  induction 1 as [|g gs Hg _ IH]; cbn [map dec_all]; [reflexivity|]. rewrite pgos_roundtrip by exact Hg. rewrite IH. reflexivity.
+Qed.
+Lemma wf_rfield k (gs : list pgos) : 1 <= k <= max_field_number -> Forall wf_pgos gs -> Forall wf_field (rfield k (map enc_pgos gs)).
+Proof.
+  intros Hk. induction 1 as [|g gs Hg _ IH]; cbn [map rfield]; constructor; [|exact IH].
+  split; [exact Hk|]. cbn [snd]. apply Hg.
+Qed.
+
+Theorem pvmsg_roundtrip m : wf_pvmsg m -> dec_pvmsg (enc_pvmsg m) = Some m.
+Proof.
+  intros [Hv Hg]. unfold dec_pvmsg, enc_pvmsg. rewrite parse_all_fields.
+  - unfold vmsg_wire. rewrite !getm_app, !getm_mfield, getm_rfield_same, (getm_rfield_other 1 2) by discriminate.
+    cbn [N.eqb Pos.eqb app]. rewrite app_nil_r, dec_all_map by exact Hg.
+    destruct m as [[v|] gs]; cbn [pm_vertex pm_gossipers option_map app] in *.
+    + rewrite (dec_sub_one dec_pvtx _ v) by (apply pvtx_roundtrip; apply Hv). reflexivity.
+    + reflexivity.
+  - unfold vmsg_wire. apply Forall_app; split; [|apply wf_rfield; [fnum|exact Hg]].
+    apply wf_mfield; [fnum|]. destruct (pm_vertex m) as [v|]; cbn [option_map]; [apply Hv|exact I].
+Qed.
+Theorem ptmsg_roundtrip m : wf_ptmsg m -> dec_ptmsg (enc_ptmsg m) = Some m.
+Proof.
+  intros [Hv Hg]. unfold dec_ptmsg, enc_ptmsg. rewrite parse_all_fields.
+  - unfold tmsg_wire. rewrite !getm_app, !getm_mfield, getm_rfield_same, (getm_rfield_other 1 2) by discriminate.
+    cbn [N.eqb Pos.eqb app]. rewrite app_nil_r, dec_all_map by exact Hg.
+    destruct m as [[t|] gs]; cbn [pq_trx pq_gossipers option_map app] in *.
+    + rewrite (dec_sub_one dec_ptrx _ t) by (apply ptrx_roundtrip; apply Hv). reflexivity.
+    + reflexivity.
+  - unfold tmsg_wire. apply Forall_app; split; [|apply wf_rfield; [fnum|exact Hg]].
+    apply wf_mfield; [fnum|]. destruct (pq_trx m) as [t|]; cbn [option_map]; [apply Hv|exact I].
+Qed.
+(* the gossiper list crosses the wire as it is: same entries, same order, none added, none dropped *)
+Corollary gossiper_list_preserved m m' : wf_pvmsg m -> dec_pvmsg (enc_pvmsg m) = Some m' -> pm_gossipers m' = pm_gossipers m.
+Proof. intros W D. rewrite (pvmsg_roundtrip m W) in D. congruence. Qed.
